@@ -210,6 +210,9 @@ fn catalogue() -> &'static Vec<Spec> {
             // Inner loop over the same value has ended, outer still active: mutation must fail.
             for m in 0..nm {
                 for alias in ALIASES {
+                    for (ci, construct) in ["ret_expr_def", "ret_expr_nested", "ret_expr_compr"].iter().enumerate() {
+                        v.push(Spec { kind, construct, mutation: m, alias, exit: "mutate", at: (m + ci) % 3 });
+                    }
                     v.push(Spec { kind, construct: "after_inner", mutation: m, alias, exit: "mutate", at: 0 });
                     v.push(Spec { kind, construct: "after_inner_break", mutation: m, alias, exit: "mutate", at: 1 });
                 }
@@ -390,6 +393,11 @@ fn programs(s: &Spec) -> (String, String, String) {
         "host_iter_call" => "R = iter_call(C, act)\n".to_owned(),
         "eager" => format!("{}\n", EAGER_CONSUMERS[s.at]),
         "eager_fail" => format!("{}\n", FAILING_CONSUMERS[s.at]),
+        // The mutation is attempted while the returned expression is evaluated: the loop has not
+        // been left yet.
+        "ret_expr_def" => format!("def run():\n    for x in C:\n        if x == {k}:\n            return [mut(), 7]\n        noop(x)\nrun()\n"),
+        "ret_expr_nested" => format!("def run():\n    for w in [1, 2]:\n        for x in C:\n            if x == {k}:\n                return (mut(), x)\nrun()\n"),
+        "ret_expr_compr" => "def run():\n    for x in C:\n        return [mut() for _q in [1]]\nrun()\n".to_owned(),
         "after_inner" => format!("def run():\n    for w in C:\n        for x in C:\n            noop(x)\n        mut()\nrun()\n"),
         "after_inner_break" => format!("def run():\n    for w in C:\n        for x in C:\n            break\n        mut()\nrun()\n"),
         _ => unreachable!(),
